@@ -82,13 +82,13 @@ CLAIMS = {
    technique="Lean 4 reference decoder; inductive numeral lemmas for all values; finite-domain theorem (native_decide); differential run with decoding oracle and executed code",
    design="8/C03"),
  "C04": dict(
-   text="Statement: decode (assemble (render d)) = d for every MMX/SSE2/SSSE3/SSE4.1/AVX/AVX2/BMI2/ADX entry of the reference table over ALL register "
+   text="KERNEL-CHECKED PART (no native_decide): AL.Properties.C04.two_operand_forms = Kernel.c04_two_operand_forms - every MMX/SSE/AVX/BMI2 entry of the reference table with at most two register operands (packed arithmetic on mm/xmm, conversions, movd/movq between general and vector registers, vmovdqu/vmovupd, psrldq and rorx with their immediate) over EVERY register tuple, the byte boundary values of the immediate and EVERY option byte: 14 096 written lines through the whole per-line model and the reference decoder inside decide +kernel (cells of 192 lines, 74 modules), lifted from option byte 14 by Kernel.checkT_sound (C11.other_lines_identical). The three-operand VEX forms (4 096 register triples per entry, 285 000 lines) are decided by Sweep.c04_sweep (native_decide) next to the kernel-checked field theorems. Statement: decode (assemble (render d)) = d for every MMX/SSE2/SSSE3/SSE4.1/AVX/AVX2/BMI2/ADX entry of the reference table over ALL register "
         "tuples of its register files (mm0-7, xmm0-15, ymm0-15, 32/64-bit general registers) and its memory forms: mandatory prefix, opcode map, "
         "VEX.L, W, vvvv and the inverted R/X/B bits are what a decoder needs to read the same operation, operands, operand size and vector length. "
         "Theorems: Sweep.c04_sweep (about 330000 instances on the model, by evaluation), C04.vex2_is_vex3 (kernel-checked: the 2-byte and 3-byte VEX "
         "forms carry the same fields for all 256 second bytes), C04.vex_prefix_fields (kernel-checked by evaluation in the kernel: for EVERY VEX slot value of the regenerated table, every REX state, vvvv and operand width the prefix assemble_VEX emits - C5 or C4, its choice - reads back with the inverted R/X/B, vvvv, L, pp, map and W the row asks for), C04.vecpair_fields and C01.regpair_fields (kernel-checked: REX.R/REX.B and ModRM name the two registers for every pair of mm/xmm/ymm and of general registers). Tie: the family on the C implementation, decoded and compared; objdump cross-check.",
    note="Sweep by evaluation (native_decide axiom). Vector forms AssemblyLine does not offer (e.g. vaddpd xmm) are skipped, not judged.",
-   technique="Lean 4 reference decoder incl. VEX; exhaustive finite-domain theorem (native_decide); exhaustive differential run with decoding oracle",
+   technique="Lean 4 reference decoder incl. VEX; kernel-checked exhaustive theorem for the forms with at most two register operands (decide +kernel cells), finite-domain theorem by native_decide for the three-operand VEX forms, kernel-checked field theorems; exhaustive differential run with decoding oracle",
    design="8/C04"),
  "C05": dict(
    text="Statement: for jmp, every conditional jump, call, jrcxz, xbegin x {no keyword, short, long} x every d in -130..129 and the 16/32-bit "
@@ -153,7 +153,7 @@ CLAIMS = {
         "{stdin, FILE}: exit status, -P/-o file bytes, -b count vs the model; -p hex parsed back and -r value checked directly; programs with empty lines behind boundary-crossing instructions and with CR-only / CRLF line ends; the -b count from stdin equals the one from FILE. "
         "The printers are modelled too (AL.Impl.Debug: debug_without_chunksize with its row break in front of the eighth byte, debug_with_chunksize with `|` at chunk "
         "boundaries, print_chunk_brks, asmline's print-once-at-the-end branch; cliStdout): C20.listing_reads_back and C20.chunk_dump_reads_back (kernel-checked, EVERY "
-        "option byte, text, chunk size and buffer contents: reading every pair of hexadecimal digits of what is printed gives the code bytes in order), and asmline's "
+        "option byte, text, chunk size and buffer contents: reading every pair of hexadecimal digits of what is printed gives the code bytes in order), C20.p_with_fitting_prints_the_code and C20.p_plain_file_prints_the_code (end to end, EVERY flag list and program: a successful -p run, with chunk fitting from stdin or FILE / without it from FILE, prints exactly the bytes [0, offset) of the instance's buffer), and asmline's "
         "stdout is compared with the model's CHARACTER BY CHARACTER on every invocation without -r.",
    note="PARTIAL: getopt_long is assumed; -r (executing the code) is checked on the executable only; the usage text is not modelled.",
    technique="Lean 4 model of the command-line tool and of its printers over the library model + refinement to the documented option table + read-back theorems; differential run of the executable (exit status, files, counts, stdout text)",
